@@ -15,21 +15,129 @@ RULE = ("every vector in {0..4}^k, k<=K (all orders, not only sorted ones) x {li
         "objectives with every k-parameter 1..k+2 x (k<=3) every weight vector in {1,2,3}^k; on sorted vectors additionally the "
         "declared-sorted fast path; oracle: the documented definitions (-min, max, max-min, -sum of the j smallest, sum of the j "
         "largest, -min of sum/weight). The weighted objective may refuse the sorted flag but must not return a wrong value. "
-        "A point is one (vector, container); non-trivial = the vector is not constant.")
+        "Also: long vectors (up to 65 entries) over 2-3 letters in three orders; vectors of magnitude 2**31..2**50; one container object "
+        "mutated in place between evaluations with the objective objects reused (a memo keyed on identity would go stale); and every "
+        "sequence of up to three calls (value_to_minimize / lower_bound on vectors of different lengths) on one objective object "
+        "followed by evaluations that must still equal the definition. "
+        "A point is one (vector, container) / one mutation step / one call history; non-trivial = the vector is not constant.")
 ASSUMPTIONS = ["non-negative integer sums", "k-parameters >= 1"]
 
 
 def bounds(tier):
-    return {"vectors": f"{{0..4}}^k for k=1..{5 if tier == 'quick' else 6}", "weights": "{1,2,3}^k for k<=3", "k-parameter": "1..k+2"}
+    q = tier == "quick"
+    return {"vectors": f"{{0..4}}^k for k=1..{5 if q else 6}", "weights": "{1,2,3}^k for k<=3", "k-parameter": "1..k+2",
+            "long vectors": "all multisets over {4,7} with " + ("8,15,16,17,24" if q else "8,12,15,16,17,20,24,31,32,33,40,64,65") + " entries, over {0,1,2} and {1,5,9} up to " + ("17" if q else "24") + " entries, in ascending, descending and riffled order",
+            "big": "{0, 1, 2**31+1, 2**32+3, 2**50+1}^k, k<=4",
+            "in place": f"one list / one array object walked through {{0..3}}^k, k<={4 if q else 5}, by single-entry mutations, objective objects reused, every evaluation twice",
+            "histories": "every sequence of <=3 calls (value_to_minimize on 8 vectors of 1..6 entries, sorted fast path, lower_bound on 6 vectors x 2 totals) on one object of each of 11 objectives, then all 8 vectors evaluated"}
+
+
+LONG_ALPHABETS = ((4, 7), (0, 1, 2), (1, 5, 9))
+BIG = (0, 1, 2 ** 31 + 1, 2 ** 32 + 3, 2 ** 50 + 1)
 
 
 def tasks(tier):
-    K = 5 if tier == "quick" else 6
+    q = tier == "quick"
+    K = 5 if q else 6
     ts = []
     for k in range(1, K + 1):
         for ch in spaces.chunked(product(range(5), repeat=k), 400):
             ts.append((k, ch))
+    # long vectors (many bins), three orders each; every k-parameter 1..n+2
+    for alpha in LONG_ALPHABETS:
+        for n in ((8, 15, 16, 17, 24) if q else (8, 12, 15, 16, 17, 20, 24, 31, 32, 33, 40, 64, 65)):
+            if len(alpha) == 3 and n > (17 if q else 24):
+                continue
+            vecs = []
+            for ms in spaces.multisets(alpha, n, n):
+                a = sorted(ms)
+                for v in {tuple(a), tuple(reversed(a)), tuple(a[1::2] + a[0::2])}:
+                    vecs.append(v)
+            for ch in spaces.chunked(vecs, 30):
+                ts.append((f"long-{n}", ch))
+    for k in range(1, 5):
+        for ch in spaces.chunked(product(BIG, repeat=k), 200):
+            ts.append((f"big-{k}", ch))
+    # the same container object mutated in place between evaluations; the same objective objects throughout
+    for k in (1, 2, 3, 4) if q else (1, 2, 3, 4, 5):
+        ts.append(("inplace", [k]))
+    # call histories on one objective object: value_to_minimize / lower_bound on vectors of different lengths
+    for i in range(len(_hist_objects())):
+        ts.append(("history", [i]))
     return ts
+
+
+def _hist_objects():
+    return ["MaximizeSmallestSum", "MinimizeLargestSum", "MinimizeDifference", "MaximizeKSmallestSums(1)", "MaximizeKSmallestSums(2)",
+            "MaximizeKSmallestSums(3)", "MaximizeKSmallestSums(5)", "MinimizeKLargestSums(1)", "MinimizeKLargestSums(2)",
+            "MinimizeKLargestSums(3)", "MinimizeKLargestSums(5)"]
+
+
+HIST_VECS = ((2,), (0, 3), (3, 0), (1, 1), (4, 9, 6), (8, 5, 6), (3, 1, 4, 1, 5, 9), (2, 2, 2, 2))
+
+
+def _history(acc, idx):
+    """all sequences of <= 3 calls on ONE objective object, then value_to_minimize on every vector, against the definition"""
+    spec = _hist_objects()[idx]
+    f = dict(_defs(4))[spec]
+    ops = [("v", v, fl) for v in HIST_VECS for fl in (False,)] + [("v", tuple(sorted(v)), True) for v in HIST_VECS[4:6]] + \
+          [("lb", v, rem) for v in HIST_VECS[:6] for rem in (0, 10)]
+    for depth in (1, 2, 3):
+        for seq in product(range(len(ops)), repeat=depth):
+            o = repo.objective(spec)
+            for j in seq:
+                kind, v, extra = ops[j]
+                try:
+                    if kind == "v":
+                        o.value_to_minimize(list(v), are_sums_in_ascending_order=extra)
+                    else:
+                        o.lower_bound(list(v), extra, are_sums_in_ascending_order=False)
+                    acc.ran("objective")
+                except Exception:
+                    pass
+            acc.point(nontrivial=(depth > 1))
+            for v in HIST_VECS:
+                got = _val(o, list(v), None)
+                acc.ran("objective")
+                want = float(f(list(v)))
+                if got != want:
+                    case = {"part": "history", "object": idx, "ops": [list(map(_js, ops[j])) for j in seq], "vec": list(v)}
+                    acc.violation("objective", f"{spec};after-history", f"{[ops[j] for j in seq]} then {list(v)}",
+                                  "raises" if isinstance(got, str) else "wrong_value_after_history", want, got, case)
+                    return
+            acc.check()
+    acc.outcome((spec, "history"))
+
+
+def _js(x):
+    return list(x) if isinstance(x, tuple) else x
+
+
+def _inplace(acc, k):
+    """one list object and one array object walk through {0..3}^k by single-entry mutations; every objective (the same objects
+    throughout) is evaluated after every mutation"""
+    objs = [(spec, repo.objective(spec), f) for spec, f in _defs(k)]
+    for mk, nm in ((list, "list"), (lambda x: np.array(x, dtype=float), "array")):
+        cur = mk([0] * k)
+        prev = [0] * k
+        for v in product(range(4), repeat=k):
+            for i in range(k):
+                if prev[i] != v[i]:
+                    cur[i] = v[i]
+            prev = list(v)
+            acc.point(nontrivial=(len(set(v)) > 1))
+            for spec, o, f in objs:
+                for rep in (0, 1):
+                    got = _val(o, cur, None)
+                    acc.ran("objective")
+                    want = float(f(list(v)))
+                    if got != want:
+                        case = {"part": "inplace", "k": k}
+                        acc.violation("objective", f"{spec};{nm};mutated-in-place", str(list(v)),
+                                      "raises" if isinstance(got, str) else "wrong_value_after_in_place_change", want, got, case)
+                        return
+            acc.check()
+    acc.outcome(("inplace", k))
 
 
 def _defs(k):
@@ -83,12 +191,21 @@ def _check(acc, v):
 
 def run_task(task):
     k, chunk = task
-    acc = Acc(ID, f"k={k}")
+    if k == "inplace":
+        acc = Acc(ID, "inplace"); _inplace(acc, chunk[0]); acc.sample({"part": "inplace", "k": chunk[0]}); return acc
+    if k == "history":
+        acc = Acc(ID, "history"); _history(acc, chunk[0]); acc.sample({"part": "history", "object": _hist_objects()[chunk[0]]}); return acc
+    acc = Acc(ID, f"k={k}" if isinstance(k, int) else k.split("-")[0])
     for v in chunk:
         _check(acc, v)
-    acc.sample({"vector": list(chunk[0]), "k": k})
+    acc.sample({"vector": list(chunk[0]) if len(chunk[0]) < 12 else f"{len(chunk[0])} entries", "k": k})
     return acc
 
 
 def replay(case, acc):
-    _check(acc, tuple(case["vec"]))
+    if case.get("part") == "inplace":
+        _inplace(acc, case["k"])
+    elif case.get("part") == "history":
+        _history(acc, case["object"])
+    else:
+        _check(acc, tuple(case["vec"]))
